@@ -54,16 +54,6 @@ theorem step_setScheduledReset (r : Reason) (h : s.isClosed = false) : StateStep
 
 end state
 
--- ===================================================================== `stream k` seen from the store
-
-/-- `Streams.stream` seen from the store -/
-def Store.getD' (S : Store) (k : Nat) : Stream := (S.get? k).getD { key := k, id := 0 }
-
-@[crp_store] theorem stream_eq (s : Streams) (k : Nat) : s.stream k = Store.getD' s.store k := rfl
-
-theorem Store.getD'_of_get? {S : Store} {k : Nat} {st : Stream} (h : S.get? k = some st) : Store.getD' S k = st := by
-  unfold Store.getD'; rw [h]; rfl
-
 -- ===================================================================== steps at one key
 
 section steps
@@ -128,5 +118,46 @@ theorem SRel.setReset_fresh (st : Stream) (r : Reason) (i : Initiator) (h : st.s
     SRel st (st.setReset r i).1 :=
   SRel.state_step (setReset_key st r i) (setReset_id st r i) (setReset_pendingSend st r i)
     (by rw [setReset_state]; exact step_setReset_fresh _ _ _ _ _ h)
+
+end H2V.Lemmas.ConnResetP
+
+-- ===================================================================== fusing consecutive modifications of one entry
+namespace H2V.Lemmas.ConnResetP
+open H2V H2V.Model H2V.Model.Conn
+
+theorem Store.set_set (S : Store) (x y : Stream) (h : y.key = x.key) : (S.set x).set y = S.set y := by
+  unfold Store.set
+  simp only [List.map_map, h]
+  congr 1
+  apply List.map_congr_left
+  intro z _
+  simp only [Function.comp]
+  by_cases hz : z.key = x.key
+  · simp [hz]
+  · simp [hz]
+
+theorem Store.mod_mod (S : Store) (id : Nat) (f g : Stream → Stream)
+    (hf : ∀ x, (f x).key = x.key) (hg : ∀ x, (g x).key = x.key) :
+    Store.mod (Store.mod S id f) id g = Store.mod S id (fun x => g (f x)) := by
+  unfold Store.mod
+  cases h : S.get? id with
+  | none => simp only [h]
+  | some x =>
+    have hk : (f x).key = id := by rw [hf, Store.get?_key h]
+    have : (S.set (f x)).get? id = some (f x) := by
+      have := Store.get?_set_eq S (f x); rw [hk, h] at this; exact this
+    simp only [this]
+    exact Store.set_set _ _ _ (hg _)
+
+theorem Store.get?_mod' (S : Store) (id : Nat) (f : Stream → Stream) (hf : ∀ x, (f x).key = x.key) (k : Nat) :
+    (Store.mod S id f).get? k = if k = id then (S.get? id).map f else S.get? k :=
+  Store.get?_mod S id f k (fun x _ => hf x)
+
+theorem qPush_store (s : Streams) (q : QName) (id : Nat) :
+    (s.qPush q id).1.store =
+      if (Store.getD' s.store id).isQueued q then s.store else Store.mod s.store id (fun st => st.setQueued q true) := by
+  unfold Streams.qPush
+  rw [stream_eq]
+  split <;> simp
 
 end H2V.Lemmas.ConnResetP
